@@ -385,6 +385,24 @@ def _fam_exp_wall(rng, n, spec):
     return f, g, dict(convex=False, complex_safe=True, wild=True)
 
 
+def _fam_exp_valley(rng, n, spec):
+    """sum(exp(z) - z), z = K (x - C), K spread over 0.3..10: smooth, strictly convex, one or more steep exponential directions on which
+    the first trial of a search overshoots by orders of magnitude. Not in ALL_FAMILIES (C03's budget sweep uses it)."""
+    K = np.exp(rng.uniform(np.log(0.3), np.log(10.0), n))
+    C = rng.uniform(-2.0, 2.0, n)
+
+    def f(x):
+        with np.errstate(over="ignore", invalid="ignore"):
+            z = K * (x - C)
+            return float(np.sum(np.exp(z) - z))
+
+    def g(x):
+        with np.errstate(over="ignore", invalid="ignore"):
+            return K * (np.exp(K * (x - C)) - 1.0)
+
+    return f, g, dict(convex=True, complex_safe=True, wild=True)
+
+
 def _fam_log_barrier(rng, n, spec):
     """c.x - sum(log x): defined for x > 0 only; returns inf (gradient nan) outside its domain, as a user's
     domain-restricted objective does. Not in ALL_FAMILIES: only the checks that handle non-finite values use it."""
@@ -596,6 +614,7 @@ _FAMILIES = {
     "ackley": _fam_ackley,
     "oscillating": _fam_oscillating,
     "exp_wall": _fam_exp_wall,
+    "exp_valley": _fam_exp_valley,
     "log_barrier": _fam_log_barrier,
     "qp_inf_region": _fam_qp_inf_region,
     "qp_nan_region": _fam_qp_inf_region,
